@@ -64,7 +64,7 @@ def stored_names(nodes):
     return {x.id for s_ in nodes for x in ast.walk(s_) if isinstance(x, ast.Name) and isinstance(x.ctx, (ast.Store, ast.Del))}
 
 
-def exec_small(stmts, env, lenient=False, until=None, steps=None):
+def exec_small(stmts, env, lenient=False, until=None, steps=None, evalf=None):
     """Interpretation of a small statement list on the representative values of `env` (name -> value, updated in place): every expression is evaluated by minieval, assignments (names,
     tuple unpacking, augmented), if / for / while / break / continue / return / raise are followed; asserts, docstrings, logging and `pass` are skipped. Nothing of the repository runs.
     -> (kind, value, node) with kind in fallthrough | return | raise | break | continue | until (the statement `until` was reached; it is not executed).
@@ -72,6 +72,7 @@ def exec_small(stmts, env, lenient=False, until=None, steps=None):
     on — used to learn which locals have a KNOWN value when `until` is reached (e.g. a parameter whose default None is resolved to a constant at call time); an `if` around `until` whose
     test cannot be evaluated is entered on the side that leads to it."""
     steps = steps if steps is not None else [0]
+    ev_ = evalf or ev  # the expression evaluator (minieval; ev_str where path-splitting code is interpreted)
 
     def holds_(s_):
         return until is not None and s_ is not until and any(x is until for x in ast.walk(s_))
@@ -96,7 +97,7 @@ def exec_small(stmts, env, lenient=False, until=None, steps=None):
             if steps[0] > 4000:
                 raise CannotEval("too many steps")
             if it is None:
-                if not ev(s_.test, env):
+                if not ev_(s_.test, env):
                     break
             else:
                 try:
@@ -104,14 +105,14 @@ def exec_small(stmts, env, lenient=False, until=None, steps=None):
                 except StopIteration:
                     break
                 bind(s_.target, v, s_)
-            r = exec_small(s_.body, env, lenient, None, steps)
+            r = exec_small(s_.body, env, lenient, None, steps, evalf)
             if r[0] == "break":
                 broke = True
                 break
             if r[0] in ("return", "raise"):
                 return r
         if not broke and s_.orelse:
-            r = exec_small(s_.orelse, env, lenient, None, steps)
+            r = exec_small(s_.orelse, env, lenient, None, steps, evalf)
             if r[0] != "fallthrough":
                 return r
         return None
@@ -126,7 +127,7 @@ def exec_small(stmts, env, lenient=False, until=None, steps=None):
             if isinstance(s, ast.If):
                 in_body = any(x is until for b_ in s.body for x in ast.walk(b_))
                 try:
-                    t = bool(ev(s.test, env))
+                    t = bool(ev_(s.test, env))
                 except CannotEval:
                     if not lenient:
                         raise
@@ -135,32 +136,32 @@ def exec_small(stmts, env, lenient=False, until=None, steps=None):
                     t = in_body
                 if t != in_body:
                     raise CannotEval(f"line {until.lineno} is not reached for these values (`{u(s.test)[:50]}` is {t})")
-                return exec_small(s.body if t else s.orelse, env, lenient, until, steps)
+                return exec_small(s.body if t else s.orelse, env, lenient, until, steps, evalf)
             if isinstance(s, (ast.With, ast.AsyncWith, ast.Try)):
                 if not any(x is until for b_ in s.body for x in ast.walk(b_)):
                     raise CannotEval(f"line {until.lineno} lies in a handler / else / finally arm")
                 for nm in stored_names([it.optional_vars for it in getattr(s, "items", []) if it.optional_vars is not None]):
                     env.pop(nm, None)
-                return exec_small(s.body, env, lenient, until, steps)
+                return exec_small(s.body, env, lenient, until, steps, evalf)
             raise CannotEval(f"line {until.lineno} is nested in a {type(s).__name__} statement")
         try:
             if isinstance(s, ast.Assign):
-                v = ev(s.value, env)
+                v = ev_(s.value, env)
                 for t in s.targets:
                     bind(t, v, s)
             elif isinstance(s, ast.AnnAssign):
                 if s.value is not None:
-                    bind(s.target, ev(s.value, env), s)
+                    bind(s.target, ev_(s.value, env), s)
             elif isinstance(s, ast.AugAssign):
                 if not isinstance(s.target, ast.Name):
                     raise CannotEval(f"store to `{u(s.target)[:40]}`")
-                env[s.target.id] = ev(ast.BinOp(left=ast.Name(id=s.target.id, ctx=ast.Load()), op=s.op, right=s.value), env)
+                env[s.target.id] = ev_(ast.BinOp(left=ast.Name(id=s.target.id, ctx=ast.Load()), op=s.op, right=s.value), env)
             elif isinstance(s, ast.If):
-                r = exec_small(s.body if ev(s.test, env) else s.orelse, env, lenient, None, steps)
+                r = exec_small(s.body if ev_(s.test, env) else s.orelse, env, lenient, None, steps, evalf)
                 if r[0] != "fallthrough":
                     return r
             elif isinstance(s, ast.For):
-                items = ev(s.iter, env)
+                items = ev_(s.iter, env)
                 if not isinstance(items, (list, tuple, range, str, set, frozenset, dict)):
                     raise CannotEval(f"iteration over `{u(s.iter)[:40]}`")
                 r = loop(s, items)
@@ -171,7 +172,7 @@ def exec_small(stmts, env, lenient=False, until=None, steps=None):
                 if r is not None:
                     return r
             elif isinstance(s, ast.Return):
-                return "return", (None if s.value is None else ev(s.value, env)), s
+                return "return", (None if s.value is None else ev_(s.value, env)), s
             elif isinstance(s, ast.Raise):
                 return "raise", s.exc, s
             elif isinstance(s, ast.Break):
@@ -183,7 +184,7 @@ def exec_small(stmts, env, lenient=False, until=None, steps=None):
             elif lenient and isinstance(s, (ast.With, ast.AsyncWith)):
                 for nm in stored_names([it.optional_vars for it in s.items if it.optional_vars is not None]):
                     env.pop(nm, None)
-                r = exec_small(s.body, env, lenient, None, steps)
+                r = exec_small(s.body, env, lenient, None, steps, evalf)
                 if r[0] != "fallthrough":
                     return r
             else:
@@ -709,6 +710,11 @@ def line_count_rule(chk, rid, ldr):
         return
     ifs = [n for n in walk_body(cf) if isinstance(n, ast.If) and any(isinstance(x, ast.Name) and x.id == lr[0] for x in ast.walk(n.test))]
     if not ifs:
+        handed = [c for c in walk_body(cf) if isinstance(c, ast.Call) and not is_logging_stmt(source.enclosing_stmt(c))
+                  and any(isinstance(a_, ast.Name) and a_.id == lr[0] for a_ in list(c.args) + [k.value for k in c.keywords])]
+        if handed:
+            chk.unknown(rid, f"create_file_offset_table: the number of lines read `{lr[0]}` is tested nowhere in the method but handed to `{short(handed[0], 60)}`, which is not followed", handed[0])
+            return
         chk.ob(rid, "line-count mismatch (including 0 lines) removes the table and raises", False, cf, f"no test consults the number of lines read `{lr[0]}`: a truncated document file is accepted", key=key)
         return
     # role: v = the local holding the (optional) number of lines read; the statement is evaluated on representative (lines read, expected) pairs: None (no rebuild) is never a
@@ -722,14 +728,27 @@ def line_count_rule(chk, rid, ldr):
         return
     hit = res[(7, 6)]
     truthy = hit.kind == "raise" and res[(7, 7)].kind != "raise" and res[(0, 6)].kind != "raise"
-    # role 'removes the table': a call, with the document file, of one of io's functions that remove the very name the readers open (derived in table_removers, not spelled here)
-    try:
-        io_mod = ldr.repo.module(_I)
-        removers = table_removers(io_mod, TableRoles(io_mod))
-        is_rm = lambda x: io_qualname(ldr, dotted(x.func) or "") in removers and len(x.args) + len(x.keywords) == 1 and u((list(x.args) + [k.value for k in x.keywords])[0]) == params_of(cf)[1]  # noqa: E731
-    except AnchorMissing:
-        is_rm = lambda x: last_attr(x.func) == "remove_file_offset_table"  # noqa: E731
-    ok = ok and hit.kind == "raise" and raises_on_all_paths(gc, [gc.node_of(hit.node)]) and any(isinstance(x, ast.Call) and is_rm(x) for s in before_in_block(hit.node) for x in ast.walk(s))
+    # role 'removes the table': a call on the mismatch path, handed the document file, that removes the very name the readers open — decided on values by TableInvalidation (the
+    # callee followed into io.py / FileOffsetTable / helper methods of the class, arguments bound by parameter, the table's name derived from the reading factory, not spelled here)
+    removed = None
+    if ok and hit.kind == "raise":
+        P = ldr.cls("DocumentSetPreparator")
+        cands = [x for s in before_in_block(hit.node) for x in ast.walk(s) if isinstance(x, ast.Call) and last_attr(x.func) != "prepare_file_offset_table"]
+        try:
+            io_mod = ldr.repo.module(_I)
+            inv = TableInvalidation(io_mod, TableRoles(io_mod), ldr, P)
+            ctx = inv.ctx(ldr, cf, {params_of(cf)[1]})
+            verdicts = [inv.call_removes(x, ctx) for x in cands]
+        except AnchorMissing:
+            verdicts = [True if last_attr(x.func) == "remove_file_offset_table" else None for x in cands]
+        removed = True if any(v_ is True for v_ in verdicts) else (None if any(v_ is None for v_ in verdicts) else False)
+        if removed is None:
+            opaque = [x for x, v_ in zip(cands, verdicts) if v_ is None]
+            chk.unknown(rid, f"create_file_offset_table: whether `{short(opaque[0], 60)}` on the line-count mismatch path removes the offset table cannot be followed", opaque[0])
+            return
+        if not removed:
+            detail += " — the mismatch path does not remove the freshly written offset table (the next run takes it as valid and skips the count)"
+    ok = ok and hit.kind == "raise" and raises_on_all_paths(gc, [gc.node_of(hit.node)]) and removed is True
     if truthy:
         detail += " tests the optional line count by truthiness: a file with 0 lines skips the comparison"
     elif d_:
@@ -898,7 +917,8 @@ class Opaque:
 
 
 def module_tables(mod):
-    """{name: value} of the module-level `NAME = <container>` assignments (dict / list / tuple / set literals, frozenset(...) / set(...) / tuple(...) of one), evaluated by minieval. Dict
+    """{name: value} of the module-level `NAME = <container>` assignments (dict / list / tuple / set literals, frozenset(...) / set(...) / tuple(...) of one, comprehensions over an
+    earlier table), evaluated by minieval in the order of the assignments with the earlier tables bound. Dict
     values and sequence elements that are not literals (function objects, classes, lambdas) become Opaque placeholders: membership tests, .get() and subscripts on such a dispatch
     table are decided on its literal keys."""
     def val(e):
@@ -912,15 +932,20 @@ def module_tables(mod):
 
     out = {}
     for st in mod.tree.body:
-        if not (isinstance(st, ast.Assign) and len(st.targets) == 1 and isinstance(st.targets[0], ast.Name)):
+        if isinstance(st, ast.AnnAssign) and st.value is not None and isinstance(st.target, ast.Name):
+            tgt, v = st.target.id, st.value
+        elif isinstance(st, ast.Assign) and len(st.targets) == 1 and isinstance(st.targets[0], ast.Name):
+            tgt, v = st.targets[0].id, st.value
+        else:
             continue
-        v = st.value
+        out.pop(tgt, None)  # bound again: only the value of an evaluable last binding counts
         try:
             if isinstance(v, ast.Dict) and all(k is not None for k in v.keys):
-                out[st.targets[0].id] = {ev(k, {}): val(x) for k, x in zip(v.keys, v.values)}
-            elif isinstance(v, (ast.List, ast.Tuple, ast.Set)) or (isinstance(v, ast.Call) and dotted(v.func) in ("frozenset", "set", "tuple", "list")):
-                out[st.targets[0].id] = ev(v, {})
-        except (CannotEval, TypeError):
+                out[tgt] = {ev(k, dict(out)): val(x) for k, x in zip(v.keys, v.values)}
+            elif isinstance(v, (ast.List, ast.Tuple, ast.Set, ast.ListComp, ast.SetComp)) or (isinstance(v, ast.Call) and dotted(v.func) in ("frozenset", "set", "tuple", "list", "sorted")):
+                # a table DERIVED from an earlier one (`tuple(e for e in TABLE if e.count(".") > 1)`, `frozenset(TABLE)`) is evaluated on the value of that table
+                out[tgt] = ev_str(v, dict(out))
+        except (CannotEval, TypeError, ValueError):
             pass
     return out
 
@@ -988,6 +1013,82 @@ def fn_result(fn, vals):
     if o.kind == "fallthrough":
         return None
     raise CannotEval(f"{getattr(fn, 'name', '?')} ends with `{o.text()[:60]}`")
+
+
+class AnyValue:
+    """stands for 'some object' (not None, truthy) handed in as a parameter whose concrete value the evaluation must not depend on; a subscript of it is another one."""
+
+    def __init__(self, text):
+        self.text = text
+
+    def __getitem__(self, k):
+        return AnyValue(f"{self.text}[{k!r}]")
+
+    def __repr__(self):
+        return f"<{self.text}>"
+
+
+def fallback_worlds(fn, is_ext, is_lib):
+    """The worlds in which fn ends normally without having decompressed anything. fn (the routine that tries an external tool and falls back to the library) is evaluated once per
+    world — (the external run reported success?) x (a truth value for every other opaque predicate call it tests, e.g. `is_executable(<tool>)`) — by tables.decide; every other test
+    (a flag local compared with None, ...) is evaluated by minieval on the locals bound on the way, the parameters standing for arbitrary objects. A world is fine when the path taken
+    raises, holds a call for which is_lib is true, or has tested the external run and that run succeeded. -> descriptions of the other worlds; CannotEval when fn is beyond the evaluator."""
+    a = fn.args
+    env0 = {x.arg: AnyValue(x.arg) for x in a.posonlyargs + a.args + a.kwonlyargs}
+
+    class Need(Exception):
+        pass
+
+    def run(world, ext_ok):
+        cur, tested = {}, []
+
+        def atom(n, env):
+            if isinstance(n, ast.BoolOp) or (isinstance(n, ast.UnaryOp) and isinstance(n.op, ast.Not)):
+                return None
+            m = source.inline_node(n, {k: v for k, v in cur.items() if v is not None})
+            if isinstance(m, ast.IfExp):  # `ok = external(...) if is_executable(tool) else False`: the arm the world selects
+                pick = lambda x: bool_eval(x, lambda y: atom(y, env))  # noqa: E731
+                return pick(m.body) if pick(m.test) else pick(m.orelse)
+            if is_ext(m):
+                tested.append(n)
+                return ext_ok
+            try:
+                return bool(ev(m, dict(env0)))
+            except (CannotEval, TypeError, ValueError, AttributeError) as x:
+                if isinstance(m, ast.Call) and not any(is_ext(x_) for x_ in ast.walk(m)):
+                    if u(m) not in world:
+                        raise Need(u(m))
+                    return world[u(m)]
+                raise CannotEval(f"`{u(m)[:60]}`: {x}")
+
+        def on_stmt(s_, env, b):
+            cur.clear()
+            cur.update(b)
+            return "skip" if is_logging_stmt(s_) else None
+
+        try:
+            o = tables.decide(fn.body, atom, {}, on_stmt=on_stmt)
+        except (tables.Unsupported, UnknownAtom) as x:
+            raise CannotEval(str(x))
+        if o.kind not in ("fallthrough", "return"):
+            return True
+        done = [x for e in o.effects + ([o.value] if o.value is not None else []) for x in ast.walk(e)]
+        return any(isinstance(x, ast.Call) and is_lib(x) for x in done) or (ext_ok and (bool(tested) or any(is_ext(x) for x in done)))
+
+    free = []
+    while True:
+        try:
+            wrong = []
+            for vals in itertools.product([True, False], repeat=len(free)):
+                world = dict(zip(free, vals))
+                for ext_ok in (True, False):
+                    if not run(world, ext_ok):
+                        wrong.append(", ".join([f"`{k[:50]}` is {v}" for k, v in world.items()] + [f"the external run {'succeeds' if ext_ok else 'fails'}"]))
+            return wrong
+        except Need as x:
+            if len(free) >= 4:
+                raise CannotEval("more than 4 opaque predicates")
+            free.append(str(x))
 
 
 def returned_later(fn, assign) -> bool:
@@ -1085,9 +1186,14 @@ def post_checks(chk, rid, mod, cls, fn, anchor, path, exp, inst_missing, inst_si
         chk.ob(rid, inst_size, False, fn, f"no test compares `{exp}` with the size on disk (the method and the helpers it hands the path and the size to were searched)")
 
 
+_STR_METHODS = ("removesuffix", "removeprefix", "count", "find", "rfind", "rpartition", "join", "endswith", "startswith")
+
+
 def ev_str(e, env):
-    """minieval.ev extended by what path-splitting code needs: slices of strings / sequences and the pure library functions os.path.splitext / basename / dirname applied to a string
-    (library code on a representative value; no repository code runs). CannotEval for anything else."""
+    """minieval.ev extended by what path-splitting code needs: slices of strings / sequences, the pure str methods removesuffix / removeprefix / count / find / rfind / rpartition / join
+    (endswith / startswith also with a tuple of suffixes), the pure library functions os.path.splitext / basename / dirname applied to a string (library code on a representative
+    value; no repository code runs) and comprehensions whose element / filter uses any of these. Such sub-expressions are reduced to their values bottom-up, the rest is minieval; one
+    that cannot be reduced stays as it is (it only matters if the evaluation reaches it). CannotEval for anything else."""
     import os.path as osp
 
     def const(v, at):
@@ -1097,22 +1203,69 @@ def ev_str(e, env):
         def visit_Subscript(self, n):
             self.generic_visit(n)
             if isinstance(n.slice, ast.Slice):
-                v = ev(n.value, env)
-                lo, hi, st = (None if x is None else ev(x, env) for x in (n.slice.lower, n.slice.upper, n.slice.step))
+                try:
+                    v = ev(n.value, env)
+                    lo, hi, st = (None if x is None else ev(x, env) for x in (n.slice.lower, n.slice.upper, n.slice.step))
+                except CannotEval:
+                    return n
                 if isinstance(v, (str, list, tuple)) and all(x is None or (isinstance(x, int) and not isinstance(x, bool)) for x in (lo, hi, st)) and st != 0:
                     return const(v[lo:hi:st], n)
-                raise CannotEval(f"slice {u(n)[:50]}")
             return n
 
         def visit_Call(self, n):
             self.generic_visit(n)
             d = dotted(n.func)
-            if d in ("os.path.splitext", "os.path.basename", "os.path.dirname") and len(n.args) == 1 and not n.keywords:
-                v = ev(n.args[0], env)
-                if isinstance(v, str):
-                    return const(getattr(osp, d.rsplit(".", 1)[1])(v), n)
-                raise CannotEval(f"{u(n)[:50]}: not a string")
+            try:
+                if d in ("os.path.splitext", "os.path.basename", "os.path.dirname") and len(n.args) == 1 and not n.keywords:
+                    v = ev(n.args[0], env)
+                    if isinstance(v, str):
+                        return const(getattr(osp, d.rsplit(".", 1)[1])(v), n)
+                elif isinstance(n.func, ast.Attribute) and n.func.attr in _STR_METHODS and not n.keywords and 1 <= len(n.args) <= 3:
+                    recv = ev(n.func.value, env)
+                    vals = [ev(a_, env) for a_ in n.args]
+                    if n.func.attr == "join":
+                        vals = [list(vals[0])] if len(vals) == 1 and isinstance(vals[0], (list, tuple)) and all(isinstance(x, str) for x in vals[0]) else None
+                    elif n.func.attr in ("endswith", "startswith"):
+                        vals = vals if isinstance(vals[0], (str, tuple)) and all(isinstance(x, str) for x in (vals[0] if isinstance(vals[0], tuple) else [vals[0]])) and all(isinstance(x, int) for x in vals[1:]) else None
+                    elif not (isinstance(vals[0], str) and all(isinstance(x, int) and not isinstance(x, bool) for x in vals[1:])):
+                        vals = None
+                    if isinstance(recv, str) and vals is not None:
+                        r = getattr(recv, n.func.attr)(*vals)
+                        return const(list(r) if isinstance(r, tuple) else r, n)
+            except (CannotEval, TypeError, ValueError):
+                pass
             return n
+
+        def _comp(self, n):
+            # the element / filters are evaluated once per element with the comprehension's variables bound (nothing inside is reduced before that)
+            out = []
+
+            def rec(i, env_):
+                if i == len(n.generators):
+                    out.append(ev_str(n.elt, env_))
+                    return
+                g = n.generators[i]
+                it = ev_str(g.iter, env_)
+                if g.is_async or not isinstance(it, (list, tuple, set, frozenset, str, dict, range)):
+                    raise CannotEval(f"{u(n)[:60]}: iterable")
+                for v in it:
+                    env2 = dict(env_)
+                    if isinstance(g.target, ast.Name):
+                        env2[g.target.id] = v
+                    elif isinstance(g.target, ast.Tuple) and all(isinstance(t, ast.Name) for t in g.target.elts) and isinstance(v, (list, tuple)) and len(v) == len(g.target.elts):
+                        env2.update({t.id: x for t, x in zip(g.target.elts, v)})
+                    else:
+                        raise CannotEval(f"{u(n)[:60]}: target")
+                    if all(ev_str(c, env2) for c in g.ifs):
+                        rec(i + 1, env2)
+
+            try:
+                rec(0, dict(env))
+            except CannotEval:
+                return n
+            return const(set(out) if isinstance(n, ast.SetComp) else out, n)
+
+        visit_ListComp = visit_GeneratorExp = visit_SetComp = _comp
 
     return ev(F().visit(source.clone(e)), env)
 
@@ -1453,38 +1606,292 @@ def io_qualname(mod, d):
     return full[len(pre):] if full.startswith(pre) else None
 
 
-def table_removers(io_mod, roles):
-    """{qualified name in io.py: parameter}: the functions that, on every normal path, remove the offset table (the name the readers open) of the data file given as that parameter —
-    os.remove / os.unlink of an expression that evaluates to the final name, or a call of another such function with the parameter."""
-    cands = {source.qualname(f): f for f in list(io_mod.tree.body) + list(roles.cls.body) if isinstance(f, source.FUNC_TYPES)}
-    out = {}
-    changed = True
-    while changed:
-        changed = False
-        for qn, f in cands.items():
-            if qn in out:
-                continue
-            g = cfg_of(f)
-            for p in own_params(f):
-                hits = []
-                for n in walk_body(f):
-                    if not (isinstance(n, ast.Call) and len(n.args) == 1 and not n.keywords):
-                        continue
-                    d = dotted(n.func) or ""
-                    if d in _REMOVES:
-                        try:
-                            if ev(n.args[0], {p: _REP}) == roles.final():
-                                hits.append(n)
-                        except CannotEval:
-                            pass
-                    elif (d in out or (d.startswith("cls.") and f"{roles.cls.name}.{d[4:]}" in out)) and isinstance(n.args[0], ast.Name) and n.args[0].id == p:
-                        hits.append(n)
-                hn = [x for h in hits for x in g.nodes_of(h)]
-                if hn and g.must_pass(g.entry, hn, normal_only=True):
-                    out[qn] = p
-                    changed = True
-                    break
+def flat_normal(stmts):
+    """the statement list as its normal path reads: `try` statements replaced by body + else + finally (`try: os.remove(p) except FileNotFoundError: ...` is its body when the file
+    exists), `with contextlib.suppress(...)` blocks by their body."""
+    out = []
+    for s_ in stmts:
+        if isinstance(s_, ast.Try):
+            out += flat_normal(s_.body + s_.orelse + s_.finalbody)
+        elif isinstance(s_, ast.With) and all(isinstance(it.context_expr, ast.Call) and last_attr(it.context_expr.func) == "suppress" for it in s_.items):
+            out += flat_normal(s_.body)
+        else:
+            out.append(s_)
     return out
+
+
+_HARMLESS = ("console.", "logging.", "logger.", "self.logger.", "os.path.", "exceptions.", "time.")  # callees that do not touch the file system state the rules are about
+_PURE_BUILTINS = ("str", "repr", "len", "print", "format", "int")
+
+
+class TableInvalidation:
+    """Decides ON VALUES which code removes the offset table of a data file — the very name the readers open (roles.final(): derived from the reading factory, not spelled here).
+    Everything is evaluated for the world 'the data file is <representative path>, its offset table exists': path expressions by minieval (FileOffsetTable factory / constructor calls
+    reduced to records of their evaluated fields, so `FileOffsetTable.read_for_data_file(p).offset_table_path` is a value), existence tests of that name — os.path.exists(<name>),
+    Path(<name>).exists(), <table object>.exists() looked through to its returned expression — are true, calls are followed into the functions of io.py / FileOffsetTable and the methods
+    of the user's class with the arguments bound to the callee's parameters (positional or keyword; constant arguments and defaults become values there). Verdicts are three-valued:
+    True (removes it), False (located, does not), None (cannot be followed) — the callers turn None into 'not recognised', never into a violation."""
+
+    def __init__(self, io_mod, roles, mod, cls=None):
+        self.io, self.roles, self.mod, self.cls = io_mod, roles, mod, cls
+        self.final = roles.final()
+        self.io_defs = {source.qualname(f): f for f in list(io_mod.tree.body) + list(roles.cls.body) if isinstance(f, source.FUNC_TYPES)}
+        self.methods = mod.methods(cls) if cls is not None else {}
+        self.ft_methods = io_mod.methods(roles.cls)
+        self._cache = {}
+        self._removers = None
+
+    # -- values ------------------------------------------------------------------------------------------------------------------------------------------------
+    def table_fields(self, n, mod):
+        """{attribute: expression} when the call n creates a FileOffsetTable (constructor or factory), else None."""
+        d = dotted(n.func) or ""
+        FT = self.roles.cls.name
+        if mod is self.io and (d == "cls" or d.startswith("cls.")):
+            qn = FT + d[3:]
+        else:
+            qn = io_qualname(mod, d)
+        if qn == FT:
+            return self.roles.fields(n)
+        if qn and qn.startswith(FT + ".") and qn[len(FT) + 1:] in self.roles.factories:
+            f, fl = self.roles.factories[qn[len(FT) + 1:]]
+            b = source.bind_args(n, f)
+            return {a_: subst(x, b) for a_, x in fl.items()}
+        return None
+
+    def value(self, e, env, mod):
+        me = self
+
+        class T(ast.NodeTransformer):
+            def visit_Call(self, n):
+                self.generic_visit(n)
+                try:
+                    fl = me.table_fields(n, mod)
+                    if fl is not None:
+                        return ast.copy_location(ast.Constant(value=Record(**{a_: ev(x, env) for a_, x in fl.items()})), n)
+                except (CannotEval, AnchorMissing):
+                    pass
+                return n
+
+        return ev(T().visit(source.clone(e)), env)
+
+    class Ctx:
+        """one function under evaluation: `names` = the locals / parameters that denote the data file (:= the representative path), consts = known values of other names."""
+
+        def __init__(self, inv, mod, fn, names, consts=None, defs=None):
+            self.inv, self.mod, self.fn, self.names = inv, mod, fn, set(names)
+            self.defs = {k: v for k, v in (local_defs(fn) if defs is None else defs).items() if k not in self.names}
+            self.consts = dict(consts or {}, **{n: _REP for n in self.names})
+
+        def inl(self, e):
+            return source.inline_node(e, self.defs)
+
+        def val(self, e):
+            return self.inv.value(self.inl(e), dict(self.consts), self.mod)
+
+    def ctx(self, mod, fn, names, consts=None, defs=None):
+        return TableInvalidation.Ctx(self, mod, fn, names, consts, defs)
+
+    # -- existence tests ---------------------------------------------------------------------------------------------------------------------------------------
+    def method_truth(self, obj, name, about, depth=0):
+        """truth of the zero-argument FileOffsetTable method `name` on the record obj in the world 'the stale table exists and is at least as new as the data file' — the world in which
+        the validity test would accept it; about(path) = whether the file `path` exists there. None: it depends on more than that."""
+        m = self.ft_methods.get(name)
+        body = [x for x in (m.body if m is not None else []) if not is_logging_stmt(x) and not (isinstance(x, ast.Expr) and isinstance(x.value, ast.Constant))]
+        if depth > 2 or len(body) != 1 or not isinstance(body[0], ast.Return) or body[0].value is None:
+            return None
+        me = self
+
+        class M(ast.NodeTransformer):  # modification times in that world: the table's 5, the data file's 3
+            def visit_Call(self, n):
+                self.generic_visit(n)
+                if dotted(n.func) == "os.path.getmtime" and len(n.args) == 1:
+                    try:
+                        v = ev(n.args[0], {"self": obj})
+                    except CannotEval:
+                        return n
+                    if v in (me.final, _REP):
+                        return ast.copy_location(ast.Constant(value=5 if v == me.final else 3), n)
+                return n
+
+        def atom(x):
+            if isinstance(x, ast.BoolOp) or (isinstance(x, ast.UnaryOp) and isinstance(x.op, ast.Not)):
+                return None
+            try:
+                if isinstance(x, ast.Call) and dotted(x.func) in _EXISTS and len(x.args) == 1:
+                    return about(ev(x.args[0], {"self": obj}))
+                if isinstance(x, ast.Call) and is_self_attr(x.func) and not x.args and not x.keywords:
+                    return self.method_truth(obj, x.func.attr, about, depth + 1)
+                return bool(ev(M().visit(source.clone(x)), {"self": obj}))
+            except CannotEval:
+                return None
+
+        try:
+            return bool_eval(body[0].value, atom)
+        except UnknownAtom:
+            return None
+
+    class OtherFile(Exception):
+        """raised by exists_atom for an existence test of ANOTHER concrete name whose truth the evaluated world does not fix yet."""
+
+    def exists_atom(self, n, ctx, world=None):
+        """True when the test n asks whether the offset table of the data file exists (it does, in the evaluated world); an existence test of another concrete name has the truth value
+        `world` gives it (OtherFile when it gives none: the caller evaluates both); None for any other test."""
+        n = ctx.inl(n)
+        if not isinstance(n, ast.Call) or n.keywords:
+            return None
+
+        def about(path):
+            if path == self.final:
+                return True
+            if world is None or not isinstance(path, str):
+                return None
+            if path not in world:
+                raise TableInvalidation.OtherFile(path)
+            return world[path]
+
+        try:
+            if dotted(n.func) in _EXISTS and len(n.args) == 1:
+                return about(ctx.val(n.args[0]))
+            if isinstance(n.func, ast.Attribute) and not n.args:
+                recv = n.func.value
+                if isinstance(recv, ast.Call) and last_attr(recv.func) == "Path" and len(recv.args) == 1 and n.func.attr in ("exists", "is_file"):
+                    return about(ctx.val(recv.args[0]))
+                obj = ctx.val(recv)
+                if isinstance(obj, Record):
+                    return self.method_truth(obj, n.func.attr, about)
+        except CannotEval:
+            return None
+        return None
+
+    # -- removals ----------------------------------------------------------------------------------------------------------------------------------------------
+    def call_removes(self, c, ctx, depth=0):
+        """the call c removes the offset table of the data file of ctx: True / False / None (handed the data file, but it cannot be followed)."""
+        if not isinstance(c, ast.Call):
+            return False
+        d = dotted(c.func) or ""
+        given = [ctx.inl(a_) for a_ in list(c.args) + [k.value for k in c.keywords] if not isinstance(a_, ast.Starred)]
+        handed = any(isinstance(x, ast.Name) and x.id in ctx.names for a_ in given for x in ast.walk(a_))
+        unknown = None if handed else False
+        if d in _REMOVES:
+            try:
+                return ctx.val(given[0]) == self.final if len(given) == 1 else unknown
+            except CannotEval:
+                return unknown
+        if isinstance(c.func, ast.Attribute) and c.func.attr == "unlink" and isinstance(c.func.value, ast.Call) and last_attr(c.func.value.func) == "Path" and len(c.func.value.args) == 1:
+            try:
+                return ctx.val(c.func.value.args[0]) == self.final
+            except CannotEval:
+                return unknown
+        callee = None
+        if ctx.mod is self.io and (d.startswith("cls.") or d in self.io_defs or io_qualname(self.io, d) in self.io_defs):
+            qn = self.roles.cls.name + d[3:] if d.startswith("cls.") else (d if d in self.io_defs else io_qualname(self.io, d))
+            callee = (self.io, self.io_defs.get(qn))
+        elif ctx.mod is not self.io and io_qualname(ctx.mod, d) in self.io_defs:
+            callee = (self.io, self.io_defs[io_qualname(ctx.mod, d)])
+        elif isinstance(c.func, ast.Attribute) and is_self_attr(c.func) and ctx.mod is self.mod and c.func.attr in self.methods:
+            callee = (self.mod, self.methods[c.func.attr])
+        if callee is None or callee[1] is None:
+            return False if d.startswith(_HARMLESS) or d in _PURE_BUILTINS else unknown
+        cmod, f = callee
+        # role 'the data file' among the callee's parameters: the one whose argument VALUE is the data file's path (a plain name, an alias, an expression); an argument that mentions
+        # the data file but cannot be evaluated makes the call opaque, one that evaluates to another path (`<file>.gz`) is simply not the data file
+        ps, consts, opaque_arg = [], {}, False
+        for p_, a_ in source.bind_args(c, f).items():
+            try:
+                v_ = ctx.val(a_)
+            except CannotEval:
+                opaque_arg = opaque_arg or any(isinstance(x, ast.Name) and x.id in ctx.names for x in ast.walk(ctx.inl(a_)))
+                continue
+            if isinstance(v_, str) and v_ == _REP:
+                ps.append(p_)
+            else:
+                consts[p_] = v_
+        if len(ps) != 1:
+            return None if opaque_arg or len(ps) > 1 else False
+        return self.fn_removes(cmod, f, ps[0], consts, depth + 1)
+
+    def fn_removes(self, mod, f, p, consts=None, depth=0):
+        """the function f, called with the data file as parameter p (and the known values `consts` of other parameters; defaults otherwise), completes normally having removed the
+        data file's offset table: on every normal path of its control-flow graph, or — `if missing_ok and not os.path.exists(t): return` — on the path evaluated for 'the table exists'."""
+        consts = dict(consts or {})
+        a = f.args
+        pos = a.posonlyargs + a.args
+        for x, dv in list(zip(pos[len(pos) - len(a.defaults):], a.defaults)) + [(x, dv) for x, dv in zip(a.kwonlyargs, a.kw_defaults) if dv is not None]:
+            if x.arg not in consts and x.arg != p:
+                try:
+                    consts[x.arg] = ev(dv, {})
+                except CannotEval:
+                    pass
+        key = (id(f), p, repr(sorted(consts.items(), key=lambda kv: kv[0])))
+        if key in self._cache:
+            return self._cache[key]
+        if depth > 3:
+            return None
+        self._cache[key] = None  # recursion guard
+        ctx = self.ctx(mod, f, {p}, consts)
+        hits = [n for n in walk_body(f) if isinstance(n, ast.Call) and (n.func is not None) and self.call_removes(n, ctx, depth) is True]
+        g = cfg_of(f)
+        hn = [x for h in hits for x in g.nodes_of(h)]
+        if hn and g.must_pass(g.entry, hn, normal_only=True):
+            r = True
+        else:
+            r = self.stmts_remove(f.body, ctx, depth)
+        self._cache[key] = r
+        return r
+
+    def stmts_remove(self, stmts, ctx, depth=0):
+        """the statement list, evaluated (tables.decide) for 'the table exists', completes normally having removed the table: True / False / None (beyond the evaluator). A test for the
+        existence of another file (`if os.path.exists(<file>.offsets): <removal>`) is not fixed by that world: both truth values are evaluated and the table must go in each."""
+        def run(world):
+            def atom(n, env):
+                if isinstance(n, ast.BoolOp) or (isinstance(n, ast.UnaryOp) and isinstance(n.op, ast.Not)):
+                    return None
+                v = self.exists_atom(n, ctx, world)
+                if v is not None:
+                    return v
+                try:
+                    return bool(ctx.val(n))
+                except CannotEval:
+                    return None
+
+            def on_stmt(s_, env, b):
+                return "skip" if is_logging_stmt(s_) else None
+
+            try:
+                o = tables.decide(flat_normal(stmts), atom, {}, on_stmt=on_stmt)
+            except (tables.Unsupported, UnknownAtom, CannotEval):
+                return None
+            if o.kind not in ("fallthrough", "return"):
+                return False
+            res = [self.call_removes(e, ctx, depth) for e in o.effects + ([o.value] if o.value is not None else []) if isinstance(e, ast.Call)]
+            return True if any(r is True for r in res) else (None if any(r is None for r in res) else False)
+
+        free = []
+        while True:
+            try:
+                res = [run(dict(zip(free, vals))) for vals in itertools.product([True, False], repeat=len(free))]
+                return False if any(r is False for r in res) else (None if any(r is None for r in res) else True)
+            except TableInvalidation.OtherFile as x:
+                if len(free) >= 3:
+                    return None
+                free.append(x.args[0])
+
+    def removers(self):
+        """{qualified name in io.py: (parameter, def)}: the functions of io.py / FileOffsetTable that remove the offset table of the data file given as that parameter."""
+        if self._removers is None:
+            self._removers = {}
+            for qn, f in self.io_defs.items():
+                for p_ in own_params(f):
+                    if self.fn_removes(self.io, f, p_) is True:
+                        self._removers[qn] = (p_, f)
+                        break
+        return self._removers
+
+
+def table_removers(io_mod, roles):
+    """{qualified name in io.py: (parameter, def)}: the functions that remove the offset table (the name the readers open) of the data file given as that parameter — decided by
+    TableInvalidation.fn_removes (os.remove / os.unlink of an expression that evaluates to the final name, or a call of another such function with the parameter)."""
+    return TableInvalidation(io_mod, roles, io_mod).removers()
 
 
 def recreated_file_invalidates_table(chk, io_mod, ldr, roles, rid="O14.9"):
@@ -1495,49 +1902,25 @@ def recreated_file_invalidates_table(chk, io_mod, ldr, roles, rid="O14.9"):
              "a document re-extracted from an updated .tar / .tar.gz / .tgz / .tar.bz2 archive carries the archived mtime, older than the offset table of its predecessor: the stale table counts "
              "as valid, is not rebuilt, the line count is not checked and bulk clients seek to the old file's offsets (mid-document starts, wrong / duplicated documents)")
     final = roles.final()
-    removers = table_removers(io_mod, roles)
-    chk.ob(rid, "io offers a function that removes the very name the readers open (used for invalidation and after a line-count mismatch)", bool(removers), roles.cls,
-           f"removers: {sorted(removers)}; table name for {_REP}: {final}", key=f"{_I}:offset-table:remover-agrees-with-readers")
     P = ldr.cls("DocumentSetPreparator")
-
-    def is_removal(c, names, env_of):
-        """the call c removes the offset table of the file named by one of `names` (env_of(e) evaluates a path expression with that file := the representative path)."""
-        if not isinstance(c, ast.Call) or len(c.args) != 1:
-            return False
-        d = dotted(c.func) or ""
-        if d in _REMOVES:
-            try:
-                return env_of(c.args[0]) == final
-            except CannotEval:
-                return False
-        return io_qualname(ldr, d) in removers and isinstance(c.args[0], ast.Name) and c.args[0].id in names
-
-    def exists_atom(n, env_of):
-        if isinstance(n, ast.Call) and dotted(n.func) in _EXISTS and len(n.args) == 1:
-            try:
-                return True if env_of(n.args[0]) == final else None
-            except CannotEval:
-                return None
-        return None
-
-    def helper_invalidates(h):
-        """the method h(self, p), evaluated for the case 'a (stale) table of p exists' (every existence test of the table's name is true): completes normally having removed the table."""
-        ps = own_params(h)
-        if len(ps) != 1:
-            return False
-        hdefs = {k: v for k, v in local_defs(h).items() if k != ps[0]}
-        env_of = lambda e: ev(source.inline_node(e, hdefs), {ps[0]: _REP})  # noqa: E731 - single-assignment locals (`table = p + ".offset"`) are looked through
-
-        def on_stmt(s_, env, b):
-            return "skip" if is_logging_stmt(s_) else None
-
-        try:
-            o = tables.decide(h.body, lambda n, env: exists_atom(n, env_of), {}, on_stmt=on_stmt)
-        except (tables.Unsupported, UnknownAtom, CannotEval):
-            return False
-        return o.kind in ("fallthrough", "return") and any(is_removal(c, {ps[0]}, env_of) for c in o.effects)
-
-    helpers = {n: f for n, f in ldr.methods(P).items() if helper_invalidates(f)}
+    inv_ = TableInvalidation(io_mod, roles, ldr, P)
+    removers = inv_.removers()
+    # a function of io.py that is handed a data file and removes a file next to it must remove the name the READERS open: one that removes another name (`<file>.offsets`) leaves the
+    # table the readers trust in place. No such function at all (the removal written out at its call sites) is not a finding here: the call sites are decided below / in O14.4
+    near = []
+    if not removers:
+        for qn_, f_ in inv_.io_defs.items():
+            for c_ in [x for x in walk_body(f_) if isinstance(x, ast.Call) and dotted(x.func) in _REMOVES and len(x.args) == 1]:
+                for p_ in own_params(f_):
+                    try:
+                        v_ = inv_.ctx(io_mod, f_, {p_}).val(c_.args[0])
+                    except CannotEval:
+                        continue
+                    if isinstance(v_, str) and v_ != final and v_.startswith(_REP) and len(v_) > len(_REP):
+                        near.append((qn_, v_))
+    chk.ob(rid, "io offers a function that removes the very name the readers open (used for invalidation and after a line-count mismatch)", bool(removers) or not near, roles.cls,
+           f"removers: {sorted(removers)}; table name for {_REP}: {final}" + ("" if removers or not near else f" — `{near[0][0]}` removes {near[0][1]} instead")
+           + ("" if removers or near else " (io.py has no such function: removals are decided at their call sites)"), key=f"{_I}:offset-table:remover-agrees-with-readers")
     for name in ("prepare_document_set", "prepare_bundled_document_set"):
         f = method(ldr, P, name)
         g = cfg_of(f)
@@ -1545,8 +1928,7 @@ def recreated_file_invalidates_table(chk, io_mod, ldr, roles, rid="O14.9"):
         names = {docv}
         for _ in range(3):  # locals that may denote the document file (`target_path = doc_path` in one arm)
             names |= {n.targets[0].id for n in walk_body(f) if isinstance(n, ast.Assign) and len(n.targets) == 1 and isinstance(n.targets[0], ast.Name) and isinstance(n.value, ast.Name) and n.value.id in names}
-        fdefs = {k: v for k, v in local_defs(f).items() if k not in names}
-        env_of = lambda e: eval_with(source.inline_node(e, fdefs), {docv: _REP})  # noqa: E731
+        ctx = inv_.ctx(ldr, f, names)
         # calls made by the method itself or through helper methods of the class (arguments in the method's own terms; the CFG position is that of the call in the method's own body)
         reach_ = calls_through(ldr, f, cls=P)
         cfo = method(ldr, P, "create_file_offset_table")
@@ -1556,20 +1938,26 @@ def recreated_file_invalidates_table(chk, io_mod, ldr, roles, rid="O14.9"):
         builds = [r_ for c, a_, k_, r_ in reach_ if last_attr(c.func) == "create_file_offset_table" and isinstance(bound_params(a_, k_, cfo).get(cdoc), ast.Name) and bound_params(a_, k_, cfo)[cdoc].id in names]
         if not creators or not builds:
             raise AnchorMissing(f"{name}: calls that (re)create the document file `{docv}` (decompress / download) and the offset-table step")
-        # invalidation points: a removal of the table of the document file — direct, through a helper method of the class, or an `if <the table exists>: <removal>` statement
-        inv = []
+        # invalidation points, decided on values for the world 'a table of the document file exists' (TableInvalidation): a call statement that removes the very name the readers open —
+        # os.remove of it, a function of io.py / FileOffsetTable or a helper method of the class followed with the arguments bound by parameter (positional / keyword / extra flags) —,
+        # an `if <the table exists>: <removal>` statement (whatever spells the existence test), or an mtime bump of the new file. A call statement that is handed the document file
+        # and cannot be followed is 'opaque': it never discharges the obligation, but a path that is only covered by it is reported as not recognised instead of as a violation.
+        skip = {id(source.enclosing_stmt(x)) for x in [r_ for _, r_ in creators] + builds}
+        inv, opaque = [], []
         for n in walk_body(f):
-            if isinstance(n, ast.Expr) and isinstance(n.value, ast.Call):
+            if isinstance(n, ast.Expr) and isinstance(n.value, ast.Call) and id(n) not in skip and not is_logging_stmt(n):
                 c = n.value
-                direct = is_removal(c, names, env_of)
-                helper = isinstance(c.func, ast.Attribute) and is_self_attr(c.func) and c.func.attr in helpers and len(c.args) == 1 and isinstance(c.args[0], ast.Name) and c.args[0].id in names
                 # os.utime(<document file>) without explicit times makes the file newer than any existing table: the validity test then rejects the table (same effect as removing it)
                 touch = dotted(c.func) == "os.utime" and len(c.args) == 1 and isinstance(c.args[0], ast.Name) and c.args[0].id in names and all(k.arg == "times" and source.is_const(k.value) and k.value.value is None for k in c.keywords)
-                if helper or direct or touch:
+                v_ = True if touch else inv_.call_removes(c, ctx)
+                if v_ is True:
                     inv.append(n)
-            elif isinstance(n, ast.If) and exists_atom(n.test, env_of) and any(isinstance(s_, ast.Expr) and is_removal(s_.value, names, env_of) for s_ in n.body):
+                elif v_ is None:
+                    opaque.append(n)
+            elif isinstance(n, ast.If) and not any(isinstance(x, _JUMPS) for x in ast.walk(n)) and inv_.stmts_remove([n], ctx) is True:
                 inv.append(n)
         inv_nodes = [x for n in inv for x in g.by_ast.get(id(n), [])]
+        opaque_nodes = [x for n in opaque for x in g.by_ast.get(id(n), [])]
         try:
             build_nodes = [g.node_of(b) for b in builds]
             creator_nodes = [g.node_of(r_) for _, r_ in creators]
@@ -1581,6 +1969,21 @@ def recreated_file_invalidates_table(chk, io_mod, ldr, roles, rid="O14.9"):
             if not ok:
                 if r_ is not c:
                     chk.unknown(rid, f"{name}: `{c.func.attr}` into the document file is reached through `{short(r_, 60)}`; an invalidation inside that helper is not followed", r_)
+                    continue
+                if opaque_nodes and g.must_pass(cn, inv_nodes + opaque_nodes, exits=build_nodes, normal_only=True):
+                    chk.unknown(rid, f"{name}: between `{c.func.attr}` into the document file and the table step lies `{short(opaque[0], 60)}`, which is handed the document file and cannot be "
+                                     f"followed (whether it invalidates the old offset table cannot be told)", opaque[0])
+                    continue
+                # the callee itself (Decompressor.decompress / Downloader.download) may have taken the invalidation over: looked into, not followed
+                callee = [m_ for k_ in ldr.classes() for n_, m_ in ldr.methods(k_).items() if n_ == c.func.attr and k_ is not P]
+                inside = None
+                for m_ in callee:
+                    for p_, a_ in source.bind_args(c, m_).items():
+                        if isinstance(a_, ast.Name) and a_.id in names and inside is None:
+                            cx = inv_.ctx(ldr, m_, {p_})
+                            inside = next((x for x in walk_body(m_) if isinstance(x, ast.Call) and inv_.call_removes(x, cx) is True), None)
+                if inside is not None:
+                    chk.unknown(rid, f"{name}: no invalidation follows `{c.func.attr}` in the method itself, but the callee removes the table (`{short(inside, 60)}`); its position there is not followed", inside)
                     continue
                 for b in build_nodes:
                     p_ = g.find_path(cn, b, avoid=inv_nodes, edge_ok=g.normal_edge)
@@ -1607,7 +2010,9 @@ def run(chk):
         "representative values (tables.decide + minieval on the extracted tests: size / line-count mismatch tables, retry handler per loop index, extension dispatch incl. module-level "
         "dispatch tables, splitext on concrete names, the scanning loop per readline() result, is_valid per (exists, mtimes), the written table entry parsed by the reader's own "
         "expression, find_closest_offset interpreted statement by statement on tables written by add_offset, the retry budget on the values the locals have when the loop is reached "
-        "for the call net.download makes); a role that cannot be located is reported as not recognised (exit 2), never as a violation."
+        "for the call net.download makes, the external-tool / library fallback per (tool present, external run succeeded) world, splitext interpreted statement by statement over "
+        "module-level suffix tables incl. derived ones, offset-table removal and its existence tests evaluated for the world 'a stale table of the data file exists' with calls "
+        "followed into io.py / FileOffsetTable by parameter binding); a role that cannot be located is reported as not recognised (exit 2), never as a violation."
     )
     chk.not_decided = "archive contents, real network behaviour, crash points inside library calls (a kill between two statements of the offset-table build is covered by the rename protocol O14.8; a torn write inside os.replace is not)."
 
@@ -1691,8 +2096,14 @@ def run(chk):
     roots = [r_ for _, _, _, r_ in writers]
     trys = [n for n in walk_body(dl) if isinstance(n, ast.Try) and any(any(x is r_ for x in ast.walk(n)) for r_ in roots)]
     broad = [h for t_ in trys for h in t_.handlers if h.type is None or last_attr(h.type) == "BaseException"]
-    if writers and not trys:
+    inner_try = [w_ for w_, _, _, r_ in writers if r_ is not w_ and source.enclosing(w_, ast.Try) is not None]
+    cleanup_finally = [t_ for t_ in trys if t_.finalbody and removes_file(t_.finalbody, tmp, net) is not False]
+    if writers and not trys and inner_try:
+        chk.unknown("O14.1", f"net.download: the transfer `{short(inner_try[0], 50)}` is reached through a helper and the try statement around it lies in that helper; its handler is not followed", inner_try[0])
+    elif writers and not trys:
         chk.ob("O14.1", "broad handler removes tmp and re-raises", False, dl, "the transfer is not inside a try statement: an interrupted transfer leaves the temporary file behind")
+    elif writers and not broad and cleanup_finally:
+        chk.unknown("O14.1", "net.download: the temporary file is cleaned up in a `finally` block instead of a broad handler; whether it is kept on success only is not followed", cleanup_finally[0])
     elif writers:
         ok, d_ = False, "no `except BaseException` / bare except around the transfer"
         if broad:
@@ -1969,14 +2380,24 @@ def run(chk):
     preach = calls_through(ldr, pds, cls=P)
     in_loop = lambda n: any(x is WL for x in source.ancestors(n))  # noqa: E731
     cfo = method(ldr, P, "create_file_offset_table")
-    ot = [(c, bound_params(a_, k_, cfo), r_) for c, a_, k_, r_ in preach if last_attr(c.func) == "create_file_offset_table" and not in_loop(r_)]
+    # role 'the table step': every call of create_file_offset_table reached from the method. Behind the loop, or — `if <present and sized>: <build>; break` — inside it in front of the
+    # exit: either way every normal path from the loop head to the method's end passes through one, and none of those inside the loop can be followed by another (re)creation of the
+    # document file without a further build (every path from a decompress / download call to the end passes through a build as well)
+    ot_all = [(c, bound_params(a_, k_, cfo), r_) for c, a_, k_, r_ in preach if last_attr(c.func) == "create_file_offset_table"]
+    ot = [x for x in ot_all if not in_loop(x[2])] or ot_all
     if not ot:
-        chk.ob("O14.4", "offset table built after the loop on every normal exit", False, pds, "no call of create_file_offset_table outside the state loop (the method and the helpers it calls were searched)")
+        chk.ob("O14.4", "offset table built after the loop on every normal exit", False, pds, "no call of create_file_offset_table is reached from the method (the method and the helpers it calls were searched)")
     else:
         c, b_, r_ = ot[0]
         cp = params(cfo, 3)
-        ok = gp.must_pass(gp.node_of(WL), [gp.node_of(x[2]) for x in ot], normal_only=True) and u(b_.get(cp[1])) == docv and u(b_.get(cp[2])).endswith(".number_of_lines")
-        chk.ob("O14.4", "offset table built after the loop on every normal exit", ok, r_, "")
+        bn_ = [gp.node_of(x[2]) for x in ot]
+        ok = gp.must_pass(gp.node_of(WL), bn_, normal_only=True) and all(u(x[1].get(cp[1])) == docv and u(x[1].get(cp[2])).endswith(".number_of_lines") for x in ot)
+        d_ = ""
+        if ok and any(in_loop(x[2]) for x in ot):
+            recr = [r2 for c2, _a, _k, r2 in preach if last_attr(c2.func) in ("decompress", "download") and isinstance(c2.func, ast.Attribute) and is_self_attr(c2.func.value) and in_loop(r2)]
+            ok = all(gp.must_pass(gp.node_of(r2), bn_, normal_only=True) for r2 in recr)
+            d_ = "" if ok else "the table is built inside the state loop and the document file can be (re)created afterwards without another build"
+        chk.ob("O14.4", "offset table built after the loop on every normal exit", ok, r_, d_)
     # what the loop does otherwise: decompress a valid archive, else download to the right target with the right size
     dcm = method(ldr, ldr.cls("Decompressor"), "decompress")
     dcmp = params(dcm, 3)
@@ -2162,12 +2583,19 @@ def run(chk):
             return "skip" if is_logging_stmt(s_) else None
 
         try:
-            o = tables.decide(unrolled(se.body), lambda n, env: None if isinstance(n, (ast.BoolOp, ast.UnaryOp)) else bool(ev_str(inl(n), {sp_: name})), {}, on_stmt=on_stmt)
-        except (tables.Unsupported, UnknownAtom) as x:
-            raise CannotEval(str(x))
-        if o.kind != "return" or o.value is None:
-            raise CannotEval(f"splitext ends with `{o.text()[:40]}`")
-        r = ev_str(inl(o.value), {sp_: name})
+            o = tables.decide(unrolled(se.body), lambda n, env: None if isinstance(n, (ast.BoolOp, ast.UnaryOp)) else bool(ev_str(inl(n), dict(tbls, **{sp_: name}))), {}, on_stmt=on_stmt)
+            if o.kind != "return" or o.value is None:
+                raise CannotEval(f"splitext ends with `{o.text()[:40]}`")
+            r = ev_str(inl(o.value), dict(tbls, **{sp_: name}))
+        except (tables.Unsupported, UnknownAtom, CannotEval) as x:
+            # a search loop over a suffix table (`for e in <module-level table>: if name.endswith(e): return name.removesuffix(e), e`): the body is interpreted statement by statement
+            # (exec_small: loops, early returns) on the concrete name, the module-level tables bound to their evaluated values
+            try:
+                kind, r, _ = exec_small(se.body, dict(tbls, **{sp_: name}), evalf=ev_str)
+            except CannotEval as x2:
+                raise CannotEval(f"{x}; interpreted: {x2}")
+            if kind != "return":
+                raise CannotEval(f"splitext ends with `{kind}` for {name!r}")
         if not (isinstance(r, (list, tuple)) and len(r) == 2):
             raise CannotEval("splitext does not return a pair")
         return tuple(r)
@@ -2219,7 +2647,13 @@ def run(chk):
     gm = cfg_of(dm)
     mdefs = local_defs(dm)
     is_ext = lambda t: isinstance(t, ast.Call) and last_attr(t.func) == "_do_decompress_manually_external"  # noqa: E731
-    lib = [gm.node_of(n) for n in walk_body(dm) if isinstance(n, ast.Call) and last_attr(n.func) == "_do_decompress_manually_with_lib"]
+    # role 'the library fallback': the call of _do_decompress_manually_with_lib made by the function itself or — an extracted `_fallback(...)` — the call of the helper function of the
+    # module through which it is reached
+    lib_calls = []
+    for c_, _a, _k, r_ in calls_through(io_, dm):
+        if last_attr(c_.func) == "_do_decompress_manually_with_lib" and not any(r_ is x for x in lib_calls):
+            lib_calls.append(r_)
+    lib = [gm.node_of(n) for n in lib_calls]
     # a return that is reached only when the external run reported success: the call itself, or a local holding its result, is a (positive) guard fact
     okret = [gm.node_of(n) for n in walk_body(dm) if isinstance(n, ast.Return) and any(is_ext(t) or (isinstance(t, ast.Name) and is_ext(mdefs.get(t.id))) for t in pat.fact_nodes(n))]
     ok = bool(lib) and gm.must_pass(gm.entry, lib + okret, normal_only=True)
@@ -2227,7 +2661,18 @@ def run(chk):
     if not ok:
         p = gm.find_path(gm.entry, gm.exit, avoid=lib + okret, edge_ok=gm.normal_edge)
         path = gm.describe_path(p) if p else None
-    chk.ob("O14.5", "library fallback (or a successful external run) on every path", ok, dm, "" if ok else "a path ends without having decompressed anything: " + " ".join(path or []), path=path)
+    if ok or not lib:
+        chk.ob("O14.5", "library fallback (or a successful external run) on every path", ok, dm, "" if ok else "a path ends without having decompressed anything: " + " ".join(path or []), path=path)
+    else:
+        # some path of the control-flow graph avoids both — it need not be a feasible one (a flag `done = <tool>` set after the successful run and tested in front of the fallback
+        # correlates the two branches). Decided on VALUES: the function is evaluated once per world (tool present?, external run succeeded?); the world that ends normally with
+        # neither the library call on its path nor a successful external run is the counterexample
+        try:
+            wrong = fallback_worlds(dm, is_ext, lambda c: any(c is x for x in lib_calls))
+            chk.ob("O14.5", "library fallback (or a successful external run) on every path", not wrong, dm,
+                   "evaluated per (tool present, external run succeeded)" + ("" if not wrong else ": nothing is decompressed when " + "; ".join(wrong[:3])))
+        except CannotEval as x:
+            chk.unknown("O14.5", f"_do_decompress_manually: a path of the control-flow graph avoids the library fallback and the function cannot be evaluated per outcome of the external run ({x})", dm)
     dme = io_.func("_do_decompress_manually_external")
     rets = [n for n in walk_body(dme) if isinstance(n, ast.Return)]
     in_handler = lambda r: source.enclosing(r, ast.ExceptHandler) is not None  # noqa: E731
@@ -2271,6 +2716,31 @@ _DH_OLD = ('def download_http(url, local_path, expected_size_in_bytes=None, prog
 _DH_NEW = ('def download_http(url, local_path, expected_size_in_bytes=None, progress_indicator=None, *, sleep=time.sleep, retries=None, retry_delay=None):\n'
            '    logger = logging.getLogger(__name__)\n    if retries is None:\n        retries = HTTP_DOWNLOAD_RETRIES\n    if retry_delay is None:\n        retry_delay = 5\n'
            '    if retries < 0:\n        raise ValueError(f"retries must not be negative but was [{retries}]")\n    for i in range(retries + 1):\n')
+
+_DM_OLD = ('    if is_executable(decompressor_bin):\n        if _do_decompress_manually_external(target_directory, filename, base_path_without_extension, decompressor_args):\n            return\n    else:\n')
+_DM_FLAG = ('    decompressed_with = None\n    if is_executable(decompressor_bin):\n        if _do_decompress_manually_external(target_directory, filename, base_path_without_extension, decompressor_args):\n'
+            '            decompressed_with = decompressor_bin\n    else:\n')
+_DM_LIB_OLD = '    _do_decompress_manually_with_lib(target_directory, filename, decompressor_lib(filename))\n'
+_DM_TERNARY = ('    tool_ok = _do_decompress_manually_external(target_directory, filename, base_path_without_extension, decompressor_args) if is_executable(decompressor_bin) else False\n'
+               '    if not is_executable(decompressor_bin):\n')
+_DM_LIB_FLAG = ('    if decompressed_with is None:\n        _do_decompress_manually_with_lib(target_directory, filename, decompressor_lib(filename))\n        decompressed_with = "standard library"\n'
+                '    logging.getLogger(__name__).info("Decompressed [%s] with [%s].", filename, decompressed_with)\n')
+_SE_OLD = ('    if file_name.endswith(".tar.gz"):\n        return file_name[0:-7], file_name[-7:]\n    elif file_name.endswith(".tar.bz2"):\n        return file_name[0:-8], file_name[-8:]\n    else:\n'
+           '        return os.path.splitext(file_name)\n')
+_SE_LOOP = ('    for extension in _COMPOUND_ARCHIVE_EXTENSIONS:\n        if file_name.endswith(extension):\n            return file_name.removesuffix(extension), extension\n    return os.path.splitext(file_name)\n')
+_SAF_OLD = 'SUPPORTED_ARCHIVE_FORMATS = [".zip", ".bz2", ".gz", ".tar", ".tar.gz", ".tgz", ".tar.bz2", ".zst"]\n'
+_SAF_DERIVED = '_COMPOUND_ARCHIVE_EXTENSIONS = tuple(ext for ext in SUPPORTED_ARCHIVE_FORMATS if ext.count(".") > 1)\n'
+_INV_OLD = '        if os.path.exists(f"{document_file_path}.offset"):\n            io.remove_file_offset_table(document_file_path)\n'
+_INV_MISSING_OK = '        io.remove_file_offset_table(document_file_path, missing_ok=True)\n'
+_INV_OBJ = '        if io.FileOffsetTable.read_for_data_file(document_file_path).exists():\n            io.FileOffsetTable.remove(document_file_path)\n'
+_RM_OLD = ('    @staticmethod\n    def remove(data_file_path: str) -> None:\n        """\n        Removes a file offset table for the provided data path.\n\n'
+           '        :param data_file_path: The absolute path to the data file for which the file offset table should be deleted.\n        """\n        os.remove(f"{data_file_path}.offset")\n')
+_RM_MISSING_OK = ('    @staticmethod\n    def remove(data_file_path: str, missing_ok: bool = False) -> None:\n        try:\n            os.remove(f"{data_file_path}.offset")\n        except FileNotFoundError:\n'
+                  '            if not missing_ok:\n                raise\n')
+_RM_CLS = '    @classmethod\n    def remove(cls, data_file_path: str) -> None:\n        os.remove(cls.read_for_data_file(data_file_path).offset_table_path)\n'
+_RMW_OLD = ('def remove_file_offset_table(data_file_path: str) -> None:\n    """\n\n    Attempts to remove the file offset table for the provided data path.\n\n'
+            '    :param data_file_path: The path to a text file that is readable by this process.\n    """\n    FileOffsetTable.remove(data_file_path)\n')
+_RMW_MISSING_OK = 'def remove_file_offset_table(data_file_path: str, missing_ok: bool = False) -> None:\n    FileOffsetTable.remove(data_file_path, missing_ok=missing_ok)\n'
 
 VARIANTS = [
     V("F14: truthiness on the line count", "break", _L, "        if lines_read is not None and lines_read != expected_number_of_lines:", "        if lines_read and lines_read != expected_number_of_lines:", "O14.4"),
@@ -2498,4 +2968,63 @@ VARIANTS = [
      V('', 'break', _N, '            if i == HTTP_DOWNLOAD_RETRIES:\n', '            if i == retries:\n'),
      V('', 'break', _N, '            expected_size_in_bytes = download_http(url, tmp_data_set_path, expected_size_in_bytes, progress_indicator)',
        '            expected_size_in_bytes = download_http(url, tmp_data_set_path, expected_size_in_bytes, progress_indicator, retries=0)')],
+    # ---- hardening round 4: the library fallback per (tool present, external run succeeded); splitext interpreted over a derived suffix table; offset-table removal decided on values ----
+    [V('fallback: the early return became a flag that is tested in front of the library call (plus a log line)', 'keep', _I, _DM_OLD, _DM_FLAG),
+     V('', 'keep', _I, _DM_LIB_OLD, _DM_LIB_FLAG)],
+    [V('fallback flag: the result of the external run is ignored (the flag is set whatever it reports)', 'break', _I, _DM_OLD,
+       _DM_FLAG.replace('        if _do_decompress_manually_external(target_directory, filename, base_path_without_extension, decompressor_args):\n            decompressed_with = decompressor_bin\n',
+                        '        _do_decompress_manually_external(target_directory, filename, base_path_without_extension, decompressor_args)\n        decompressed_with = decompressor_bin\n'), 'O14.5'),
+     V('', 'break', _I, _DM_LIB_OLD, _DM_LIB_FLAG)],
+    [V('fallback flag: tested with the wrong polarity (the library runs only after a successful external run)', 'break', _I, _DM_OLD, _DM_FLAG, 'O14.5'),
+     V('', 'break', _I, _DM_LIB_OLD, _DM_LIB_FLAG.replace('if decompressed_with is None:', 'if decompressed_with is not None:'))],
+    [V('fallback flag: initialised with the tool name (never None: the library is never used)', 'break', _I, _DM_OLD, _DM_FLAG.replace('    decompressed_with = None\n', '    decompressed_with = decompressor_bin\n'), 'O14.5'),
+     V('', 'break', _I, _DM_LIB_OLD, _DM_LIB_FLAG)],
+    [V('fallback as one condition: `ok = is_executable(..) and external(..)`; `if not ok: <library>`', 'keep', _I, _DM_OLD,
+       '    ok = is_executable(decompressor_bin) and _do_decompress_manually_external(target_directory, filename, base_path_without_extension, decompressor_args)\n    if not is_executable(decompressor_bin):\n'),
+     V('', 'keep', _I, _DM_LIB_OLD, '    if not ok:\n        _do_decompress_manually_with_lib(target_directory, filename, decompressor_lib(filename))\n')],
+    [V('splitext: search loop over a suffix table derived from SUPPORTED_ARCHIVE_FORMATS, str.removesuffix', 'keep', _I, _SE_OLD, _SE_LOOP),
+     V('', 'keep', _I, _SAF_OLD, _SAF_OLD + _SAF_DERIVED)],
+    [V('splitext loop: the derived suffix table is empty (filter asks for more than two dots)', 'break', _I, _SE_OLD, _SE_LOOP, 'O14.5'),
+     V('', 'break', _I, _SAF_OLD, _SAF_OLD + _SAF_DERIVED.replace('> 1)', '> 2)'))],
+    [V('splitext loop: the root is cut by a fixed suffix instead of the matched one', 'break', _I, _SE_OLD, _SE_LOOP.replace('file_name.removesuffix(extension)', 'file_name.removesuffix(".gz")'), 'O14.5'),
+     V('', 'break', _I, _SAF_OLD, _SAF_OLD + _SAF_DERIVED)],
+    [V('splitext loop: endswith(<whole table>) - the first suffix is reported for every compound archive', 'break', _I, _SE_OLD, _SE_LOOP.replace('file_name.endswith(extension)', 'file_name.endswith(_COMPOUND_ARCHIVE_EXTENSIONS)'), 'O14.5'),
+     V('', 'break', _I, _SAF_OLD, _SAF_OLD + _SAF_DERIVED)],
+    [V('table removal: optional missing_ok parameter (try / except FileNotFoundError), the invalidation calls it without an existence test', 'keep', _L, _INV_OLD, _INV_MISSING_OK),
+     V('', 'keep', _I, _RM_OLD, _RM_MISSING_OK),
+     V('', 'keep', _I, _RMW_OLD, _RMW_MISSING_OK)],
+    [V('table removal with missing_ok as an early return (`if missing_ok and not exists: return`)', 'keep', _L, _INV_OLD, _INV_MISSING_OK),
+     V('', 'keep', _I, _RM_OLD, _RM_MISSING_OK.replace('        try:\n            os.remove(f"{data_file_path}.offset")\n        except FileNotFoundError:\n            if not missing_ok:\n                raise\n',
+                                                      '        if missing_ok and not os.path.exists(f"{data_file_path}.offset"):\n            return\n        os.remove(f"{data_file_path}.offset")\n')),
+     V('', 'keep', _I, _RMW_OLD, _RMW_MISSING_OK)],
+    [V('table removal: missing_ok=True returns before anything is removed (the invalidation is a no-op)', 'break', _L, _INV_OLD, _INV_MISSING_OK, 'O14.9'),
+     V('', 'break', _I, _RM_OLD, _RM_MISSING_OK.replace('        try:\n            os.remove(f"{data_file_path}.offset")\n        except FileNotFoundError:\n            if not missing_ok:\n                raise\n',
+                                                       '        if missing_ok:\n            return\n        os.remove(f"{data_file_path}.offset")\n')),
+     V('', 'break', _I, _RMW_OLD, _RMW_MISSING_OK)],
+    [V('table removal with missing_ok: the table of another file (the archive) is removed after the document was re-created', 'break', _L, _INV_OLD,
+       _INV_MISSING_OK.replace('(document_file_path, missing_ok=True)', '(document_file_path + ".gz", missing_ok=True)'), 'O14.9'),
+     V('', 'break', _I, _RM_OLD, _RM_MISSING_OK),
+     V('', 'break', _I, _RMW_OLD, _RMW_MISSING_OK)],
+    [V('pass-through wrapper inlined: callers use FileOffsetTable.remove (a classmethod that asks the reading factory for the name), existence asked of the table object', 'keep', _L, _INV_OLD, _INV_OBJ),
+     V('', 'keep', _L, '            io.remove_file_offset_table(document_file_path)\n            raise exceptions.DataError(', '            io.FileOffsetTable.remove(data_file_path=document_file_path)\n            raise exceptions.DataError('),
+     V('', 'keep', _I, _RM_OLD, _RM_CLS)],
+    [V('existence asked of the table object with the wrong polarity (removed only when there is none)', 'break', _L, _INV_OLD, _INV_OBJ.replace('        if io.', '        if not io.'), 'O14.9'),
+     V('', 'break', _L, '            io.remove_file_offset_table(document_file_path)\n            raise exceptions.DataError(', '            io.FileOffsetTable.remove(data_file_path=document_file_path)\n            raise exceptions.DataError('),
+     V('', 'break', _I, _RM_OLD, _RM_CLS)],
+    V('existence asked of the table object of another file', 'break', _L, _INV_OLD, _INV_OBJ.replace('read_for_data_file(document_file_path)', 'read_for_data_file(document_file_path + ".bak")').replace('io.FileOffsetTable.remove(', 'io.remove_file_offset_table('), 'O14.9'),
+    V('the table is removed when the validity test would accept it (`if <table>.is_valid(): remove` - an invalid one is rebuilt anyway)', 'keep', _L, '        if os.path.exists(f"{document_file_path}.offset"):\n',
+      '        if io.FileOffsetTable.read_for_data_file(document_file_path).is_valid():\n'),
+    V('classmethod remove() asks the WRITING name of another suffix (removes <file>.offsets)', 'break', _I, _RM_OLD, _RM_CLS.replace('cls.read_for_data_file(data_file_path).offset_table_path', 'cls.read_for_data_file(data_file_path).offset_table_path + "s"'), 'O14.'),
+    [V('table step inside the state loop in front of the break', 'keep', _L, '            if self.is_locally_available(doc_path) and self.has_expected_size(doc_path, document_set.uncompressed_size_in_bytes):\n                break\n',
+       '            if self.is_locally_available(doc_path) and self.has_expected_size(doc_path, document_set.uncompressed_size_in_bytes):\n                self.create_file_offset_table(doc_path, document_set.number_of_lines)\n                break\n'),
+     V('', 'keep', _L, '                    raise\n\n        self.create_file_offset_table(doc_path, document_set.number_of_lines)\n', '                    raise\n')],
+    [V('fallback: the result of the external run chosen by a conditional expression (`external(..) if is_executable(..) else False`)', 'keep', _I, _DM_OLD, _DM_TERNARY),
+     V('', 'keep', _I, _DM_LIB_OLD, '    if not tool_ok:\n    ' + _DM_LIB_OLD)],
+    [V('fallback by conditional expression: a missing tool counts as success (nothing is decompressed)', 'break', _I, _DM_OLD, _DM_TERNARY.replace('else False\n', 'else True\n'), 'O14.5'),
+     V('', 'break', _I, _DM_LIB_OLD, '    if not tool_ok:\n    ' + _DM_LIB_OLD)],
+    V('invalidation through a table object held in a local (`t = read_for_data_file(p)`; `if t.exists(): os.remove(t.offset_table_path)`)', 'keep', _L, _INV_OLD,
+      '        table = io.FileOffsetTable.read_for_data_file(document_file_path)\n        if table.exists():\n            os.remove(table.offset_table_path)\n'),
+    V('invalidation through a table object: the DATA file attribute is removed instead of the table', 'break', _L, _INV_OLD,
+      '        table = io.FileOffsetTable.read_for_data_file(document_file_path)\n        if table.exists():\n            os.remove(table.data_file_path)\n', 'O14.9'),
+    V('invalidation as pathlib unlink(missing_ok=True) of the table name', 'keep', _L, _INV_OLD, '        pathlib.Path(f"{document_file_path}.offset").unlink(missing_ok=True)\n'),
 ]
